@@ -343,7 +343,9 @@ func worldBody(tape *simrt.Tape, o simwork.Opts, res *simwork.Result, focus stri
 			// client died and the whole run is torn down) is not waited for by the
 			// runner and is not counted; a well-behaved server that was asked to
 			// stop at the end of its batch occupies its slot until it has exited.
-			if s.ctx != nil && s.ctx.Err() != nil && (len(s.fired) > 0 || clientTrouble()) {
+			if s.ctx != nil && s.ctx.Err() != nil && (len(s.fired) > 0 || clientTrouble() || !s.responded || sim.DelayedRunnable > 0) {
+				// (a slow node can make a well-behaved server miss the start timeout:
+				// that is an error path too, and the stub cannot tell which one it is on)
 				continue
 			}
 			// the runner gives a server gracefulShutdownPeriod to end after asking
